@@ -112,6 +112,8 @@ def main(argv=None):
     if a.replay:
         return replay(a.prop, a.replay)
     t0 = time.time()
+    sys.setrecursionlimit(20000)
+    _init_armi()
     hs = _load(a.prop)
     if a.only:
         hs = [h for h in hs if a.only in h.name]
